@@ -153,6 +153,17 @@ theorem compileCF_correct_partial₁ :
   obtain ⟨fuel, ha, hb⟩ := compileS_correct p h1 h2 h3
   exact ⟨fuel, by rw [ha, hb]⟩
 
+/-- compileCF_correct_validated: translation-validation form of stage 1 for the BACK-PATCHING compiler
+`compileCF` itself: for every stage-1 program that passes the executable check `sameCode`, the mini-VM
+run on `compileProgram p` (= compileCF's output) has the reference log and completion. -/
+theorem compileCF_correct_validated (p : Stmt) (hst : stage1 p = true) (h0 : 0 ∉ ids p)
+    (hnop : Instr.nop ∉ compileS p) (hsame : sameCode p = true) :
+    ∃ fuel, (VM.run (compileProgram p) fuel {}).log = (refSem p).2 ∧
+            (VM.run (compileProgram p) fuel {}).halted = some (obsCompl (refSem p).1) := by
+  have h : (compileS p).toArray = compileProgram p := by simpa [sameCode] using hsame
+  rw [← h]
+  exact compileS_correct p hst h0 hnop
+
 /-- compileS produces compileCF's instruction list on concrete stage-1 programs (tests on literals; the
 driver checks the same equality on every generated stage-1 program) -/
 theorem compileS_eq_compileCF_examples :
